@@ -66,22 +66,25 @@ def default_vals(K, S, C):
 # ----------------------------------------------------------------------------- implementation
 
 def _scalar(r):
+    """forward map answer: 'none' or the index (python int, numpy integer, 0-d or one-element array: the
+    container is not part of the property)"""
     if r is None:
         return 'none'
     a = np.asarray(r)
-    if a.ndim != 0:
+    if a.size != 1:
         return 'array:' + ','.join(str(int(v)) for v in a.ravel())
-    return str(int(a))
+    return str(int(a.ravel()[0]))
 
 
 def _lst(r):
+    """backward map answer: the *set* of indices (a bare index counts as a singleton, a single column / row as
+    its entries; the order is kept in the token and canonicalised when compared)"""
     if r is None:
         return 'none'
     a = np.asarray(r)
-    if a.ndim == 0:
-        return 'scalar:%d' % int(a)
-    if a.ndim != 1:
+    if a.ndim > 1 and a.size != max(a.shape):
         return 'shape:%s' % (a.shape,)
+    a = a.ravel()
     return ','.join(str(int(v)) for v in a) if a.size else '-'
 
 
@@ -146,15 +149,91 @@ def model_table(result):
     return [s.split() for s in segs]
 
 
-def diff_tables(impl, model):
+# level whose items index each map slot / each projection's value vector
+LEVEL = {'sample_to_cycle': 'n', 'cycle_to_samples': 'K', 'subset_to_cycle': 'S', 'cycle_to_subset': 'K',
+         'subset_to_sample': 'S', 'sample_to_subset': 'n', 'chain_to_subset': 'C', 'subset_to_chain': 'S',
+         'cycle_to_chain': 'K', 'chain_to_cycle': 'C', 'chain_to_samples': 'C', 'sample_to_chain': 'n'}
+BACKWARD = ('cycle_to_samples', 'subset_to_cycle', 'subset_to_sample', 'chain_to_subset', 'chain_to_cycle', 'chain_to_samples')
+PROJ_VALS = {'project_cycles_to_samples': 'K', 'project_subset_to_cycles': 'S', 'project_subset_to_samples': 'S',
+             'project_chain_to_subset': 'C', 'project_chain_to_cycles': 'C', 'project_chain_to_samples': 'C'}
+PROJ_ARG = {'project_cycles_to_samples': 0, 'project_subset_to_cycles': 1, 'project_subset_to_samples': 1,
+            'project_chain_to_subset': 2, 'project_chain_to_cycles': 2, 'project_chain_to_samples': 2}
+
+
+def well_formed(cv, valids):
+    """The structures the property speaks about: cycles 0..K-1 as contiguous blocks in time order (optional -1
+    gaps anywhere) and one selection flag per cycle."""
+    blocks = [k for k, _ in itertools.groupby(cv) if k != -1]
+    return blocks == list(range(len(valids)))
+
+
+def level_sizes(cv, valids):
+    S, C = sizes(valids)
+    return {'n': len(cv), 'K': len(valids), 'S': S, 'C': C}
+
+
+def _tok_class(t):
+    return t if t.startswith('E:') or t in ('none', '') else ('empty' if t == '-' else 'value')
+
+
+def _canon(slot, tok):
+    if slot in BACKWARD and ',' in tok and ':' not in tok:
+        try:
+            return ','.join(str(v) for v in sorted(int(v) for v in tok.split(',')))
+        except ValueError:
+            return tok
+    return tok
+
+
+def first_raw_diff(impl, model):
+    """first differing slot over the whole tables (used for tags on inputs outside the property's domain)"""
     if len(impl) != len(model):
-        return 'slot count %d vs %d' % (len(impl), len(model))
+        return 'slot-count'
     for name, a, b in zip(SLOTS, impl, model):
         if a != b:
+            return name
+    return None
+
+
+def diff_tables(impl, model, cv, valids, vals):
+    """Model vs implementation on what the property speaks about: the two constructed vectors, every map on every
+    *existing* index of its level, every projection of a value vector that has one value per item of its level.
+    Returns (disagreement or None, notes) - notes name what differs outside that domain (index one past the end,
+    value vectors of another length); they go to the evidence as tags and are never a disagreement."""
+    notes = []
+    if len(impl) != len(model):
+        return 'slot count %d vs %d' % (len(impl), len(model)), notes
+    sz = level_sizes(cv, valids)
+    first = None
+    for name, a, b in zip(SLOTS, impl, model):
+        if name in LEVEL:
+            m = sz[LEVEL[name]]
+            if len(a) < m or len(b) < m:
+                first = first or '%s: %d / %d answers for %d existing indices' % (name, len(a), len(b), m)
+                continue
+            for idx in range(m):
+                if _canon(name, a[idx]) != _canon(name, b[idx]):
+                    first = first or '%s[%d]: impl=%s model=%s' % (name, idx, a[idx], b[idx])
+                    break
+            if a[m:] != b[m:]:
+                notes.append('outside-domain:index-past-the-end:%s:impl=%s:model=%s'
+                             % (name, _tok_class(''.join(a[m:m + 1])), _tok_class(''.join(b[m:m + 1]))))
+        elif name in PROJ_VALS:
+            if len(vals[PROJ_ARG[name]]) != sz[PROJ_VALS[name]]:
+                if a != b:
+                    notes.append('outside-domain:value-vector-of-other-length:%s:differs' % name)
+                continue
+            if a != b:
+                for idx, (x, y) in enumerate(itertools.zip_longest(a, b)):
+                    if x != y:
+                        first = first or '%s[%d]: impl=%s model=%s' % (name, idx, x, y)
+                        break
+        elif a != b:
             for idx, (x, y) in enumerate(itertools.zip_longest(a, b)):
                 if x != y:
-                    return '%s[%d]: impl=%s model=%s' % (name, idx, x, y)
-    return None
+                    first = first or '%s[%d]: impl=%s model=%s' % (name, idx, x, y)
+                    break
+    return first, notes
 
 
 # ----------------------------------------------------------------------------- oracle
@@ -202,7 +281,10 @@ def check_instance(cv, valids, vc, vs, vh, out):
     o = oracle(cv, valids)
     T = dict(zip(SLOTS, out['table']))
     n, K, S, C = o['n'], o['K'], o['S'], o['C']
+    SZ = {'n': n, 'K': K, 'S': S, 'C': C}
     fs = {}
+    if not well_formed(cv, valids):      # the property speaks about well-formed structures only
+        return []
 
     def fail(kind, detail):
         fs.setdefault(kind, Failure(kind, 'cv=%s valids=%s: %s' % (cv, [int(bool(v)) for v in valids], detail)))
@@ -277,7 +359,7 @@ def check_instance(cv, valids, vc, vs, vh, out):
             f = get(fwd, idx)
             if f is None or isinstance(f, str):
                 continue
-            if not isinstance(f, int) or f < 0 or f >= len(T[back]):
+            if not isinstance(f, int) or f < 0 or f >= SZ[LEVEL[back]]:
                 fail('roundtrip:%s:%s:forward-out-of-range' % (fwd, back), 'index %d -> %s' % (idx, f))
                 continue
             b = get(back, f)
@@ -287,6 +369,8 @@ def check_instance(cv, valids, vc, vs, vh, out):
     # projections: value on exactly the items that map to it, missing elsewhere
     def proj(slot, vals, fwd_exp):
         got = T[slot]
+        if len(vals) != SZ[PROJ_VALS[slot]]:
+            return      # not one value per item of the level: outside the property (recorded as a tag by the caller)
         if got and got[0].startswith('E:'):
             fail('%s:raises:%s' % (slot, got[0][2:]), '')
             return
